@@ -24,9 +24,13 @@ def main():
         mod = importlib.import_module("props." + a.prop.lower())
         mod.run(ctx)
     except Exception:
-        traceback.print_exc()
-        print(f"[{a.prop}] internal error in the check itself", file=sys.stderr)
-        sys.exit(2)
+        # The harness drives the library through its public API; an exception that escapes here means the
+        # library (or the harness) did something the correspondence cannot even evaluate. That is reported as
+        # an obligation that no longer checks (a harness bug would show up on the unchanged tree the same way).
+        tb = traceback.format_exc()
+        print(tb, file=sys.stderr)
+        rp = ctx.write_replay("harness_crash.txt", "the check could not be evaluated: an exception escaped the harness\n" + tb)
+        ctx.violation(rp, "harness crash", no_input=True)
     sys.exit(finish(ctx))
 
 
